@@ -724,6 +724,48 @@ class Gen:
                         "or": [r.choice([0, 1, 1, 0, 2147483648, -1]) for _ in range(r.randrange(4))]})
         return {"hw": self.hw, "apps": [0], "addrs": sorted(set(self.addrs)), "ops": ops}
 
+    def alloc_scenario(self):
+        """qalloc/qfree bookkeeping inside ONE application: several qubit registers, frees in
+        non-LIFO order (holes in the physical pool), re-allocation, spread over several subroutines,
+        mostly legal (a shadow set of allocated virtual ids steers the choice), sometimes not."""
+        r = self.rng
+        n = r.choice([2, 3, 4, 4])
+        ops = [{"k": "init", "a": 0, "n": n}]
+        alloc = set()
+        qregs = [(2, i) for i in r.sample(range(16), 3)]
+        for _ in range(r.choice([1, 2, 3, 4])):
+            prog = []
+            for _ in range(r.choice([3, 5, 8, 12])):
+                x = r.random()
+                q = list(r.choice(qregs))
+                free = [v for v in range(n) if v not in alloc]
+                if x < 0.45 and free:
+                    v = r.choice(free)
+                    prog += [["set"] + q + [v], ["qalloc"] + q]
+                    alloc.add(v)
+                elif x < 0.8 and alloc:
+                    v = r.choice(sorted(alloc))      # any allocated qubit, not the last one: holes
+                    prog += [["set"] + q + [v], ["qfree"] + q]
+                    alloc.discard(v)
+                elif x < 0.9:
+                    v = r.choice([0, 1, n - 1, n, -1, -n])   # possibly illegal
+                    prog += [["set"] + q + [v], [r.choice(["qalloc", "qfree"])] + q]
+                    alloc = None   # may fault: the shadow set is no longer exact
+                else:
+                    prog.append(self.instr(len(prog) + 4, ["set", "add", "store", "array", "ret_reg", "meas", "q1"]))
+                if alloc is None:
+                    break
+            ops.append({"k": "sub", "a": 0, "p": prog, "fuel": 120, "or": [r.randrange(2) for _ in range(2)]})
+            if alloc is None:
+                # finish with an unsteered mix of allocations and frees
+                prog = []
+                for _ in range(r.choice([4, 8])):
+                    q = list(r.choice(qregs))
+                    prog += [["set"] + q + [r.randrange(-1, n + 1)], [r.choice(["qalloc", "qfree"])] + q]
+                ops.append({"k": "sub", "a": 0, "p": prog, "fuel": 120, "or": []})
+                break
+        return {"hw": self.hw, "apps": [0], "addrs": sorted(set(self.addrs)), "ops": ops}
+
     def c13_scenario(self, length, msg=False):
         r = self.rng
         ops = []
